@@ -114,3 +114,12 @@ Theorem C09_mapor_dup_absorb (H : list (oprec (mop oop))) (s : cmap orswot) (K :
   forall k, mo_state_entries (mapply orswot_valops s (op_val o)) k = mo_state_entries s k.
 Proof. exact (mapor_dup_absorb H s K i o). Qed.
 Print Assumptions C09_mapor_dup_absorb.
+
+(** the same under per-actor (overtaking) delivery for histories without nested removes; with
+    [C20_mapor_state_eq] the whole state is unchanged *)
+From Crdt Require Import proofs.MapOrswotPA proofs.MapOrswotEq.
+Theorem C09_mapor_dup_absorb_per_actor (H : list (oprec (mop oop))) (s : cmap orswot) (K : gset nat) (i : nat) (o : oprec (mop oop)) :
+  mohist_ok_pa H -> moreach_pa H s K -> H !! i = Some o -> i ∈ K ->
+  forall k, mo_state_entries (mapply orswot_valops s (op_val o)) k = mo_state_entries s k.
+Proof. exact (mapor_dup_absorb_pa H s K i o). Qed.
+Print Assumptions C09_mapor_dup_absorb_per_actor.
